@@ -354,6 +354,105 @@ def c11(tier):
     return jobs, meta
 
 
+# ---- Cut 2 layers: C12 HMAC, C13 HKDF, C14 PBKDF2 --------------------------------------------
+CUT2_CBMC = LIBC + ABSHASH + KDFSPEC + CLEAN
+CUT2_NATIVE = KDFSPEC + SPEC + CLEAN + HASH_REAL + D.perm_real(256)
+HMAC_SRC = S("tinyjambu-hmac.c")
+CUT2_STUBS = ["memcpy/memset/explicit_bzero: byte loops",
+              "hash API (tinyjambu_hash*): Cut 2 - an arbitrary function H of the absorbed bytes, Ackermann-encoded in "
+              "harness/stubs/abs_hash.c; contract = C10 + C11 + C20, decided on the real tinyjambu-hash.c",
+              "oracles: models/kdf_spec.c written from RFC 2104 / RFC 5869 / RFC 8018 / SP 800-90A over the same H; natively "
+              "(replay, setup validation) H is the MDPH model with the bit-serial NLFSR"]
+
+
+def cut2(name, harness, defines, extra_srcs, facet, tier, unwind=340, timeout=None, instrument=(), backend="sat"):
+    d = dict(defines)
+    d["VERIF_CUT2"] = None
+    return Job(name, harness, d, CUT2_CBMC + extra_srcs, CUT2_NATIVE + extra_srcs, backend=backend, unwind=unwind,
+               timeout=timeout or (600 if tier == "quick" else 3000), facet=facet, instrument=instrument)
+
+
+@prop("C12")
+def c12(tier):
+    jobs = []
+    keylens = [0, 1, 31, 32, 33, 63, 64, 65, 66, 100, 200]
+    if tier == "quick":
+        pairs = [(k, m) for k, m in zip(keylens, [0, 5, 20, 1, 33, 7, 64, 3, 16, 2, 9])] + [(32, m) for m in (0, 2, 17, 32)] + [(65, 20), (64, 0)]
+    else:
+        pairs = [(k, m) for k in keylens for m in (0, 1, 7, 16, 20, 32, 33, 64)]
+    for (k, m) in pairs:
+        jobs.append(cut2("hmac-oneshot-k%d-m%d" % (k, m), "c12_hmac.c", {"VARIANT": 0, "KEYLEN": k, "MSGLEN": m}, HMAC_SRC, "one-shot", tier))
+    splits = [(32, 9, c1) for c1 in range(0, 10)] + [(65, 5, 2), (0, 4, 1), (64, 33, 16), (100, 3, 3), (63, 20, 0)]
+    if tier != "quick":
+        splits += [(k, 17, c1) for k in (0, 33, 64, 65, 200) for c1 in (0, 1, 8, 16, 17)]
+    for (k, m, c1) in splits:
+        jobs.append(cut2("hmac-stream-k%d-m%d-c%d" % (k, m, c1), "c12_hmac.c", {"VARIANT": 1, "KEYLEN": k, "MSGLEN": m, "C1": c1}, HMAC_SRC, "init/update/update/finalize", tier))
+    for (k, m, pre) in [(32, 5, 3), (65, 2, 20), (0, 0, 1), (64, 17, 64)] + ([(200, 8, 5), (33, 33, 33)] if tier != "quick" else []):
+        jobs.append(cut2("hmac-reinit-k%d-m%d-pre%d" % (k, m, pre), "c12_hmac.c", {"VARIANT": 2, "KEYLEN": k, "MSGLEN": m, "PRE": pre, "C1": m // 2}, HMAC_SRC, "reinit after a partial message", tier))
+    meta = {
+        "functions": ["tinyjambu_hmac", "tinyjambu_hmac_init", "tinyjambu_hmac_reinit", "tinyjambu_hmac_update", "tinyjambu_hmac_finalize",
+                      "tinyjambu_hmac_free", "tinyjambu_hmac_set_key (static)"],
+        "units": ["src/tinyjambu-hmac.c", "src/backend/tinyjambu-clean.c"],
+        "bounds": "key lengths {0,1,31,32,33,63,64,65,66,100,200} x message lengths (quick: a diagonal; thorough: {0,1,7,16,20,32,33,64}); "
+                  "every split point of a 9-byte message, more splits in thorough; reinit after a partial message; NULL key for length 0; "
+                  "all key / message bytes symbolic, H arbitrary",
+        "outside": "other (keylen, msglen) pairs (the code has no length-dependent path besides keylen <= 64 / > 64 and zero lengths); "
+                   "messages longer than 64 bytes in one query",
+        "stubs": CUT2_STUBS, "assumptions": AEAD_ASSUME, "relies_on": ["C10, C11, C20 (hash contract) for messages up to 64 + 64 bytes"],
+    }
+    return jobs, meta
+
+
+@prop("C13")
+def c13(tier):
+    jobs = []
+    src = HMAC_SRC
+    # extract + three expands == RFC stream (private-struct-sized state object)
+    combos = [(0, 0, 0, 16, 0, 0), (1, 0, 0, 16, 16, 1), (5, 30, 40, 16, 16, 1), (32, 32, 1, 0, 0, 0), (31, 2, 33, 32, 65, 5), (0, 64, 0, 1, 1, 16)]
+    if tier != "quick":
+        combos += [(33, 33, 34, 65, 32, 32), (100, 0, 1, 16, 0, 3), (1, 1, 1, 0, 65, 0), (64, 65, 0, 32, 1, 65)]
+    for (e1, e2, e3, k, sa, i) in combos:
+        jobs.append(cut2("hkdf-stream-e%d-%d-%d-k%d-s%d-i%d" % (e1, e2, e3, k, sa, i), "c13_hkdf.c",
+                         {"VARIANT": 1, "E1": e1, "E2": e2, "E3": e3, "KEYLEN": k, "SALTLEN": sa, "INFOLEN": i}, src,
+                         "extract + expand x3 == RFC 5869 stream", tier))
+    # inductive step of expand
+    counters = [1, 2, 100, 254, 255, 0] if tier == "quick" else [1, 2, 3, 100, 128, 253, 254, 255, 0]
+    posns = [0, 7, 31, 32] if tier == "quick" else [0, 1, 7, 16, 31, 32]
+    reqs = [0, 1, 33, 70] if tier == "quick" else [0, 1, 31, 32, 33, 64, 65, 70, 97]
+    for c in counters:
+        for p in posns:
+            if c == 1 and p != 32:
+                continue                       # invariant: counter == 1 => posn == 32 (fresh from extract)
+            for rq in reqs:
+                jobs.append(cut2("hkdf-step-n%d-posn%d-req%d" % (c, p, rq), "c13_hkdf.c",
+                                 {"VARIANT": 2, "COUNTER": c, "POSN": p, "REQ": rq, "INFOLEN": 3 if (rq + p) % 2 else 0}, src,
+                                 "inductive step of hkdf_expand", tier))
+    for k in (0, 16, 65):
+        jobs.append(cut2("hkdf-emptysalt-k%d" % k, "c13_hkdf.c", {"VARIANT": 4, "KEYLEN": k}, src, "empty salt == 32 zero bytes", tier))
+    jobs.append(cut2("hkdf-wrapper-contract", "c13_hkdf.c", {"VARIANT": 5}, [x for x in []], "one-shot wrapper call contract (all lengths symbolic)", tier,
+                     instrument=[(S("tinyjambu-hkdf.c")[0], ["tinyjambu_hkdf_extract", "tinyjambu_hkdf_expand"])]))
+    # the contract query supplies tinyjambu_clean itself
+    j = jobs[-1]
+    j.cbmc_srcs = [x for x in j.cbmc_srcs if not x.endswith("tinyjambu-clean.c") and not x.endswith("abs_hash.c") and not x.endswith("kdf_spec.c")]
+    j.native_srcs = []
+    meta = {
+        "functions": ["tinyjambu_hkdf (wrapper: real goto program, callees replaced by recording stubs)", "tinyjambu_hkdf_extract",
+                      "tinyjambu_hkdf_expand (one step from an arbitrary state)", "tinyjambu_hmac_* (real code)"],
+        "units": ["src/tinyjambu-hkdf.c", "src/tinyjambu-hmac.c", "src/backend/tinyjambu-clean.c"],
+        "bounds": "inductive step: prk, T(n-1) symbolic; counter in {1,2,100,254,255,0} (thorough + 3,128,253); posn in {0,7,31,32} "
+                  "(thorough + 1,16); request in {0,1,33,70} (thorough up to 97): output == continuation of the RFC stream, zero-filled "
+                  "past byte 8160 with -1; by induction every partition of 0..8160 into expand calls of those sizes. Stream queries: "
+                  "extract + 3 expands for 6 (10) length tuples. Wrapper: outlen, keylen, saltlen, infolen fully symbolic 64-bit.",
+        "outside": "a single expand request longer than 97 bytes; counter values other than those listed (the code treats 2..254 "
+                   "uniformly: the only comparisons are == 0 and != 1); info longer than 65 bytes",
+        "stubs": CUT2_STUBS + ["wrapper contract: goto-instrument --remove-function-body on extract/expand, harness stubs record the arguments"],
+        "assumptions": AEAD_ASSUME + ["the one-shot wrapper's uninitialised local state cannot be constant-propagated by CBMC's symex "
+                                      "(byte-punned fields over a nondet base); it is therefore decided as wrapper contract + stream lemma"],
+        "relies_on": ["C12 at key length 32", "C10/C11/C20 hash contract"],
+    }
+    return jobs, meta
+
+
 # ---- replay ----------------------------------------------------------------------------
 def replay(pid, path):
     hdr = {}
